@@ -658,3 +658,58 @@ impl<T: Codec> Codec for VecUnion<T> {
         VecUnion::new((0..n).map(|_| T::generate(rng, big)).collect())
     }
 }
+
+/// A user-defined struct deriving the lattice traits through `lattices_macro` (three fields).
+#[derive(Clone, Debug, Default, lattices::Lattice)]
+pub struct Tri<A, B, C> {
+    pub a: A,
+    pub b: B,
+    pub c: C,
+}
+impl<A: Codec, B: Codec, C: Codec> Codec for Tri<A, B, C> {
+    fn desc() -> String {
+        format!("tr({},{},{})", A::desc(), B::desc(), C::desc())
+    }
+    fn kind() -> &'static str {
+        "Derived"
+    }
+    fn parse(p: &mut Ps) -> Option<Self> {
+        p.eat(b'(')?;
+        let a = A::parse(p)?;
+        p.eat(b',')?;
+        let b = B::parse(p)?;
+        p.eat(b',')?;
+        let c = C::parse(p)?;
+        p.eat(b')')?;
+        Some(Tri { a, b, c })
+    }
+    fn show(&self) -> String {
+        format!("({},{},{})", self.a.show(), self.b.show(), self.c.show())
+    }
+    fn spec_bot(&self) -> bool {
+        self.a.spec_bot() && self.b.spec_bot() && self.c.spec_bot()
+    }
+    fn spec_top(&self) -> bool {
+        self.a.spec_top() && self.b.spec_top() && self.c.spec_top()
+    }
+    fn pool() -> Vec<Self> {
+        let pa: Vec<A> = A::pool().into_iter().take(2).collect();
+        let pb: Vec<B> = B::pool().into_iter().take(2).collect();
+        let pc: Vec<C> = C::pool().into_iter().take(2).collect();
+        let mut v = vec![];
+        for (i, a) in pa.iter().enumerate() {
+            for (j, b) in pb.iter().enumerate() {
+                for (k, c) in pc.iter().enumerate() {
+                    if (i + j + k) % 2 == 0 || i + j + k == 3 {
+                        v.push(Tri { a: a.clone(), b: b.clone(), c: c.clone() });
+                    }
+                }
+            }
+        }
+        v.truncate(6);
+        v
+    }
+    fn generate(rng: &mut Rng, big: bool) -> Self {
+        Tri { a: A::generate(rng, big), b: B::generate(rng, big), c: C::generate(rng, big) }
+    }
+}
